@@ -401,8 +401,11 @@ def defuse(rc):
     _sh.defuse_rule(rc, _sh.anchor_files("C05"))
 
 MUTANTS = [
-    dict(kind="break", name="check-model-ignores-state-name-count", file=BN, expect="C05.validate",
-         old="                        if len(cpd.state_names[var]) != card:", new="                        if False:"),
+    dict(kind="repair", name="check-model-checks-state-name-count", file=BN, gone="C05.validate", construct="missing check: state names count",
+         old="                # Check if the values of the CPD sum to 1.\n",
+         new="                if isinstance(cpd, TabularCPD):\n                    for var, card in zip(cpd.variables, cpd.cardinality):\n                        if len(cpd.state_names[var]) != card:\n"
+             "                            raise ValueError(f\"CPD for {node}: number of state names of {var} doesn't match its cardinality.\")\n\n"
+             "                # Check if the values of the CPD sum to 1.\n"),
     dict(kind="break", name="is-valid-cpd-needs-subclass-method", file=DF, expect="C05.validate",
          old="            DiscreteFactor.marginalize(\n                self, self.scope()[:1], inplace=False\n            ).values.flatten(),", new="            self.to_factor().marginalize(self.scope()[:1], inplace=False).values.flatten(),"),
     dict(kind="break", name="ctor-fortran-flatten", file=CPD, expect="C05.layout",
